@@ -42,16 +42,20 @@ CFG_K = dict(CFG_1D, views=("all", "s1", "rev", "rsF", "rsT", "flat", "T"), ops1
 WORLDS["x4k"] = ([("x", (4,), 0, True), ("y", (3,), 5, False)], CFG_K)
 WORLDS["x4cls"] = ([("x", (4,), 0, False, "sub"), ("y", (3,), 5, False)], dict(CFG_1D, views=("all", "s1", "rev", "r22", "na"), ops1=("mul2",)))
 
+# in-place updates that raise (and are caught) in between; and a world in which every statement runs under mem_guard_off
+CFG_FAIL = dict(CFG_1D, views=("s1", "rev", "all"), ops1=("mul2",), set_idx=("s1", "all"), iops=("iadd",), outs=(), setshape={}, badshape=False, fails=True)
+WORLDS["x4fail"] = (WORLDS["x4"][0], CFG_FAIL)
+WORLDS["x4goff"] = ([("x", (4,), 0, False, "goff"), ("y", (3,), 5, False)], dict(CFG_1D, views=("s1", "rev", "all", "r22"), ops1=("mul2",), outs=(("add", None),), setshape={}, badshape=False))
 BOUNDS = {
-    "quick": [("x4", 4), ("x23", 3), ("x23F", 3), ("x4k", 3), ("x4cls", 3)],
-    "thorough": [("x4", 4), ("x23", 4), ("x4c", 3), ("x23c", 3), ("x4sub", 5), ("x23F", 4), ("x4k", 4), ("x4cls", 4)],
+    "quick": [("x4", 4), ("x23", 3), ("x23F", 3), ("x4k", 3), ("x4cls", 3), ("x4fail", 4), ("x4goff", 3)],
+    "thorough": [("x4", 4), ("x23", 4), ("x4c", 3), ("x23c", 3), ("x4sub", 5), ("x23F", 4), ("x4k", 4), ("x4cls", 4), ("x4fail", 5), ("x4goff", 4)],
 }
 
 
 def nontrivial(h, model):
     # a history is non-trivial if it contains an in-place write / shape assignment to a tensor that
     # has at least one other live family member at that time (approximated at the end state)
-    if not any(st[0] in ("set", "iop", "out", "setshape", "badshape") for st in h):
+    if not any(st[0] in ("set", "iop", "out", "setshape", "badshape", "failset") for st in h):
         return False
     fams = [model.fam[n] for n in model.order]
     return len(fams) != len(set(fams))
